@@ -77,6 +77,8 @@ def run_case(c):
                     model((torch.randn(*c["input"], generator=gen) * 2).to(dtype))
         if c["freeze"]:
             freeze(model)
+        if c.get("no_grad_params"):
+            model.requires_grad_(False)  # an inference model: no parameter is tracked by autograd when it is saved
         ref_out = [out_bits(model(x)) for x in probes]
         sd = model.state_dict()
         res["kinds"] = sorted({("str" if isinstance(v, str) else "Tensor" if type(v) is torch.Tensor else type(v).__name__) for v in sd.values()})
@@ -151,6 +153,23 @@ def run_case(c):
                             t["saved_model_unchanged"] = [out_bits(model(x)) for x in probes] == ref_out and sd_digest(model.state_dict()) == ref
                         except Exception as ex2:  # noqa: BLE001
                             t["second_load_exn"] = type(ex2).__name__ + ": " + str(ex2)[:120]
+                    # the same TARGET OBJECT requantized twice: first from a checkpoint of another model in the opposite state
+                    # (frozen <-> not frozen), then from the checkpoint under test - it must reproduce the saved model
+                    if how == "requantize" and c.get("requantize_twice", True):
+                        try:
+                            other = fresh(dict(c, seed=c["seed"] + 4321), "same")
+                            if not c["freeze"]:
+                                freeze(other)
+                            m5 = fresh(c, "none")
+                            requantize(m5, dict(other.state_dict()))
+                            m5.eval()
+                            m5(probes[0])
+                            requantize(m5, dict(loaded[sname]))
+                            m5.eval()
+                            t["requantize_twice_outputs_equal"] = [out_bits(m5(x)) for x in probes] == ref_out
+                            t["requantize_twice_state_equal"] = sd_digest(m5.state_dict()) == ref
+                        except Exception as ex5:  # noqa: BLE001
+                            t["requantize_twice_exn"] = type(ex5).__name__ + ": " + str(ex5)[:160]
                     tg[key] = t
                 except Exception as ex:  # noqa: BLE001
                     import traceback
